@@ -90,6 +90,59 @@ func (w *c17World) count(prefix string, onlyOK bool) int {
 	return n
 }
 
+// legal replays the journal of every database connection against the XA state
+// machine of the database (MySQL: NONE -START-> ACTIVE -END-> IDLE -PREPARE->
+// PREPARED; ROLLBACK from IDLE / PREPARED, COMMIT from PREPARED, COMMIT ... ONE
+// PHASE from IDLE) and says whether every command was one the branch's state
+// admits. A command that failed leaves the state as it was, except that after a
+// failed END the branch may be rollback-only (END again or ROLLBACK are admitted)
+// and after a failed PREPARE only ROLLBACK is.
+func (w *c17World) legal() bool {
+	type st int
+	const (
+		none st = iota
+		active
+		idle
+		prepared
+		failedEnd
+		failedPrepare
+	)
+	state := map[int]st{}
+	for _, e := range w.events {
+		if e.conn < 0 || !strings.HasPrefix(e.text, "XA ") {
+			continue
+		}
+		cur := state[e.conn]
+		var next st
+		ok := false
+		switch {
+		case strings.HasPrefix(e.text, "XA START"):
+			ok, next = cur == none, active
+		case strings.HasPrefix(e.text, "XA END"):
+			ok, next = cur == active || cur == failedEnd, idle
+		case strings.HasPrefix(e.text, "XA PREPARE"):
+			ok, next = cur == idle, prepared
+		case strings.HasPrefix(e.text, "XA COMMIT"):
+			ok, next = cur == prepared || (cur == idle && strings.Contains(e.text, "ONE PHASE")) || cur == none, none // none: phase two on another connection
+		case strings.HasPrefix(e.text, "XA ROLLBACK"):
+			ok, next = cur == idle || cur == prepared || cur == failedEnd || cur == failedPrepare || cur == none, none
+		default:
+			ok, next = true, cur
+		}
+		if !ok {
+			return false
+		}
+		if e.ok {
+			state[e.conn] = next
+		} else if strings.HasPrefix(e.text, "XA END") {
+			state[e.conn] = failedEnd
+		} else if strings.HasPrefix(e.text, "XA PREPARE") {
+			state[e.conn] = failedPrepare
+		}
+	}
+	return true
+}
+
 func (w *c17World) index(prefix string) int {
 	for i, e := range w.events {
 		if strings.HasPrefix(e.text, prefix) {
@@ -157,6 +210,7 @@ func VerifC17Branch() {
 	q := func(cmd string) string { return "XA " + cmd + " '" + id + "'" }
 	vrt.Reach("xa/phase-one-done")
 	vrt.Assert(!panicked, "xa/phase-one-no-panic")
+	vrt.Assert(w.legal(), "xa/commands-follow-the-xa-state-machine")
 	if panicked {
 		return
 	}
